@@ -170,7 +170,11 @@ class ScalarOps:
     return min(a, b)
 
   def round(self, v):
-    raise Unsupported("round in real mode")
+    """real mode: round half up (differs from half-to-even only at exact ties)."""
+    if isinstance(v, (int, float)) and not isinstance(v, bool):
+      return float(round(v))
+    cur().axioms_used.add("real mode: jnp.round modelled as floor(x + 1/2)")
+    return SReal(z3.ToReal(z3.ToInt(sym._as_real_z(v) + z3.RealVal("1/2"))))
 
   def truth(self, v):
     return v if isinstance(v, (bool, SBool)) else (v != 0)
@@ -1571,13 +1575,18 @@ class Reduction:
 
   def _candidates(self):
     c = cur()
+    out = []
+    r = self.x.ndim
+    for pt in c.index_points:
+      if len(pt) == r:
+        out.append(tuple(pt[a] for a in self.axes))
     terms = list(c.index_terms)
     m = len(self.axes)
-    if not terms:
-      return []
-    if len(terms)**m > 64:
-      terms = terms[-4:]
-    return list(itertools.product(terms, repeat=m))
+    if terms:
+      if len(terms)**m > 64:
+        terms = terms[-4:] if m <= 2 else []
+      out.extend(itertools.product(terms, repeat=m))
+    return out
 
 
 def _reduce(kind, x, axis, keepdims=False):
